@@ -1,4 +1,5 @@
-FIX_COMMITS = ["d6ae502 (passive start-up cancellation: port/listener leak)"]
+FIX_COMMITS = ["d6ae502 (passive start-up cancellation: port/listener leak)",
+               "40b0ee0 (data connection not closed when open() fails or is cancelled)"]
 
 ENV_NOTE = ("Trusted base: the environment model (vf/simloop.py: selector, TCP, clock, executor) and the harness-side "
             "oracles; the code explored is the unmodified aioftp imported from /repo/src. Bounds are stated in the "
@@ -12,6 +13,14 @@ CHECKS = [
              "quiescent point plus a black-box probe at the end.",
      "design_ref": "DESIGN.md §5 C11", "note": ENV_NOTE,
      "technique": "explicit-state enumeration of event histories + deviation-bounded stateless schedule exploration of the implementation"},
+    {"property_id": "C12", "level": "fault_enumeration",
+     "text": "Every script of a corpus covering all verbs and transfer kinds is cut (peer FIN, peer RST, server.close()) "
+             "after every delivered network event, on an in-memory, a slow and an executor-based backend with a "
+             "lock-step send window, under every schedule with <= 1 deviation after the cut, with 1 and 2 sessions; "
+             "after the cut the clock is frozen and the SimNet ledger (sockets, listeners), the spy backend (file "
+             "handles), asyncio.all_tasks and the connection table are audited; then server.close() must complete.",
+     "design_ref": "DESIGN.md §5 C12", "note": ENV_NOTE,
+     "technique": "exhaustive fault-point enumeration x deviation-bounded stateless schedule exploration of the implementation"},
 ]
 
 _ALL = [f"C{i:02d}" for i in range(1, 21)]
